@@ -645,6 +645,57 @@ def gen_halfclose(rng, mode=None):
     return build_case(cfg, body, "halfclose-" + cfg["mode"])
 
 
+def gen_eof_then_drop(rng, mode=None):
+    """Request, the requester half-closes; the responder reads to EOF, writes its response and finishes
+    its own direction by DROPPING (not shutdown): the whole stream, or the OwnedReadHalf first and the
+    OwnedWriteHalf later (with or without a write in between).  The requester keeps reading: the
+    response and then EOF must arrive."""
+    cfg = base_cfg(rng, mode)
+    c, s = hosts_of(cfg)
+    remote = cfg["mode"] == "remote"
+    by = Bytes()
+    held = remote and rng.random() < 0.6
+    x_host, x_sid, y_host, y_sid = (c, CLIENT_SID, s, SERVER_SID) if rng.random() < 0.6 else (s, SERVER_SID, c, CLIENT_SID)
+    cap = cfg["cap"]
+    rn = rng.choice([1, 3, 64])
+    xs = []
+    if rng.random() < 0.4:
+        xs.append(["split", x_sid])
+    for _ in range(rng.randrange(1, cap + 1)):
+        xs.append(["try_write", x_sid, by.take(rng.choice([1, 2, 5]))])
+    xs.append(["shutdown", x_sid])
+    how = rng.choice(["drop", "drop", "r-then-w", "r-then-w", "r-write-w", "w-then-r"])
+    ys = [["split", y_sid]] if how != "drop" or rng.random() < 0.3 else []
+    body = [{"ctl": [["hold", c, s]] if held else [], "hosts": {str(x_host): xs, str(y_host): ys}}]
+
+    def ctl():
+        return [["deliver", c, s, 0]] if held else []
+    # the responder reads the request up to and including EOF
+    for t in range(cap + 4):
+        body.append({"ctl": ctl(), "hosts": {str(y_host): [["read", y_sid, 64], ["read", y_sid, 64]]}})
+    # response, then the responder is done: it drops
+    resp = [["try_write", y_sid, by.take(rng.choice([1, 3, 6]))] for _ in range(rng.randrange(1, cap + 1))]
+    if how == "drop":
+        body.append({"ctl": ctl(), "hosts": {str(y_host): resp}})
+        body.append({"ctl": ctl(), "hosts": {str(y_host): [["drop", y_sid]]}} if rng.random() < 0.5 else
+                    {"ctl": ctl(), "hosts": {}})
+        if body[-1]["hosts"] == {}:
+            body[-2]["hosts"][str(y_host)].append(["drop", y_sid])
+    elif how == "r-then-w":
+        body.append({"ctl": ctl(), "hosts": {str(y_host): resp + [["drop_r", y_sid]]}})
+        body.append({"ctl": ctl(), "hosts": {str(y_host): [["drop_w", y_sid]]}})
+    elif how == "r-write-w":
+        body.append({"ctl": ctl(), "hosts": {str(y_host): [["drop_r", y_sid]] + resp[:1]}})
+        body.append({"ctl": ctl(), "hosts": {str(y_host): resp[1:] + [["drop_w", y_sid]]}})
+    else:
+        body.append({"ctl": ctl(), "hosts": {str(y_host): resp + [["drop_w", y_sid]]}})
+        body.append({"ctl": ctl(), "hosts": {str(y_host): [["drop_r", y_sid]]}})
+    # the requester reads the response to EOF
+    for t in range(2 * cap + 10):
+        body.append({"ctl": ctl(), "hosts": {str(x_host): [["read", x_sid, rn]] * 2}})
+    return build_case(cfg, body, "eofdrop-%s-%s" % (how, cfg["mode"]))
+
+
 def gen_blocked_writer(rng):
     """A task awaits write_all with the peer's window full (tcp_capacity unread segments); then the
     peer reads (credits come back), or the connection is reset: the peer drops its stream / its read
